@@ -38,6 +38,9 @@ def generate(rng, tier):
     for regime in ("K0", "K1"):
         for _ in range(n):
             labels = LABELS[: rng.randrange(1, 6)]
+            if rng.random() < 0.3:
+                # labels that look like generated names (the output of an earlier normalisation)
+                labels = rng.sample(["A", "B", "C", "D", 0, 1, 2], rng.randrange(1, 5)) + labels[:1]
             recs = rand_records(rng, regime, nseg=rng.choice([1, 2, 4, 6]), span=12, labels=labels)
             ntr = len(recs) + 3
             g = rng.choice([["string"], ["int"], ["list", [rng.choice(["g%d" % i, 100 + i]) for i in range(ntr)]]])
